@@ -192,6 +192,23 @@ class MyList(list):
     """a list subclass (its repr is the one of a list)"""
 
 
+class MySet(set):
+    """a set subclass"""
+
+
+class MyFrozen(frozenset):
+    """a frozenset subclass"""
+
+
+@dataclass
+class HFirst:
+    """a field that is no constructor argument in front of the others"""
+
+    h: Any = field(init=False, repr=False, compare=False, default=0)
+    name: Any = "n"
+    n: Any = 0
+
+
 class Vec:
     """plain class whose __repr__ is code and uses repr() for its children"""
 
@@ -307,7 +324,7 @@ def mutate_in_place(v, depth=0):
 
 
 __all__ = [
-    "IdentityEq", "LossyCopy", "SelfCopy", "RaisingEq", "MyList", "Locky", "Decimal", "nan", "mutate_in_place", "APriv", "PAlias", "DInit", "make_dinit",
+    "IdentityEq", "LossyCopy", "SelfCopy", "RaisingEq", "MyList", "Locky", "MySet", "MyFrozen", "HFirst", "Decimal", "nan", "mutate_in_place", "APriv", "PAlias", "DInit", "make_dinit",
     "Color", "Level", "Perm", "Outer", "Point", "FPoint", "Box", "APoint", "AFrozen",
     "PModel", "NT", "TNT", "Opaque", "Vec", "defaultdict", "inf", "Hidden", "AHidden", "PHidden", "PExtra", "IVar", "SubPoint", "Point3", "IPerm", "OrderedDict", "Counter",
 ]
